@@ -428,8 +428,14 @@ def moments_case(ctx, rng, idx):
             else:
                 var = 1 - hz * ex
             m1, s1 = sd * ex, sd * np.sqrt(var)
-        if not (ctx.close(out[0, d], m1, rtol=1e-7) and
-                ctx.close(out[1, d], s1, rtol=1e-7)):
+        # (the documented moment formulas subtract terms of size a^2 that
+        # leave 1/a^2, a = -mu/sigma: rounding errors grow like eps * a^4 -
+        # the numerical limit recorded in DESIGN R6)
+        tol = 1e-7
+        if regime == 'tail':
+            tol += 2e-13 * float(-mu / sd) ** 4
+        if not (ctx.close(out[0, d], m1, rtol=tol) and
+                ctx.close(out[1, d], s1, rtol=tol)):
             ctx.violation('reported_moments', 'moments_mismatch:' + kind,
                           {'chi': out[:, d], 'reference': [m1, s1],
                            'dim': d}, feats)
